@@ -190,3 +190,53 @@ func dischargeAll(obls []*Oblig, opts solveOpts) {
 	}
 	wg.Wait()
 }
+
+var constCache = map[string]string{}
+
+// tryConst asks the solver whether term has the same value in every model of
+// the current prefix in which reach holds; if so it returns that literal.
+func (u *Unit) tryConst(term, reach string) (string, bool) {
+	dir := os.TempDir()
+	base := func() string {
+		var b strings.Builder
+		b.WriteString("(set-option :produce-models true)\n(set-logic ALL)\n")
+		for _, l := range u.so.preamble() {
+			b.WriteString(l + "\n")
+		}
+		for _, l := range u.lines {
+			b.WriteString(l + "\n")
+		}
+		b.WriteString("(assert " + reach + ")\n")
+		return b.String()
+	}()
+	run := func(q string) string {
+		f, err := os.CreateTemp(dir, "govc-const-*.smt2")
+		if err != nil {
+			return ""
+		}
+		defer os.Remove(f.Name())
+		f.WriteString(q)
+		f.Close()
+		out, _ := exec.Command("z3-new", "-T:3", f.Name()).CombinedOutput()
+		return string(out)
+	}
+	out := run(base + "(check-sat)\n(get-value (" + term + "))\n")
+	if !strings.HasPrefix(strings.TrimSpace(out), "sat") {
+		return "", false
+	}
+	vals := parseGetValue(out[strings.Index(out, "sat")+3:], []string{term})
+	v, ok := vals[term]
+	if !ok {
+		return "", false
+	}
+	n, ok := smtInt(v)
+	if !ok {
+		return "", false
+	}
+	lit := ilit(n)
+	out = run(base + "(assert (not (= " + term + " " + lit + ")))\n(check-sat)\n")
+	if strings.HasPrefix(strings.TrimSpace(out), "unsat") {
+		return lit, true
+	}
+	return "", false
+}
